@@ -533,39 +533,181 @@ Section Oracle.
   Notation lsp_ignore_uri := (lsp_ignore_uri glob_ok glob_match).
   Notation lsp_filtered_modules := (lsp_filtered_modules glob_ok glob_match).
 
-  (* a .rego file below a non-empty workspace root: ignoreURI says "ignored" exactly when
-     getFilteredModules drops it (every pattern compiling) *)
-  Lemma lsp_call_sites_agree rootp r ignore uris kept :
-    let root_uri := file_scheme ++ rootp in
-    let u := file_scheme ++ rootp ++ [SLASH] ++ r in
-    rootp <> [] -> has_suffix rootp [SLASH] = false ->
-    has_suffix u dot_rego = true -> all_compile ignore -> is_stdin uris = false ->
-    lsp_filtered_modules root_uri ignore uris = Some kept ->
-    In u uris ->
-    (lsp_ignore_uri root_uri ignore u = true <-> ~ In u kept).
+  (* what both call sites ask the matcher: the decoded path of one URI, relative to the decoded root *)
+  Definition lsp_one (cl : lsp_client) (root_uri : str) (ignore : list str) (u : str) : option (list str) :=
+    go_filter_ignored_paths [uri_to_path cl u] ignore (uri_to_path cl root_uri).
+
+  Definition lsp_one_kept (cl : lsp_client) (root_uri : str) (ignore : list str) (u : str) : bool :=
+    match lsp_one cl root_uri ignore u with Some [] => false | _ => true end.
+
+  Lemma lsp_modules_filter cl root_uri ignore uris : forall kept,
+    lsp_filtered_modules cl root_uri ignore uris = Some kept ->
+    kept = filter (lsp_one_kept cl root_uri ignore) uris /\
+    forall u, In u uris -> lsp_one cl root_uri ignore u <> None.
   Proof.
-    intros root_uri u Hne Hs Hrego Hc Hstd Hk Hin.
-    assert (Hrel : go_rel u root_uri = go_rel (rootp ++ [SLASH] ++ r) rootp).
-    { unfold u, root_uri. apply go_rel_uri_path; [exact Hne|].
-      unfold go_norm_prefix. rewrite Hs. rewrite app_assoc. apply has_prefix_app. }
-    unfold Exclude.lsp_filtered_modules in Hk.
-    rewrite (filter_ignored_paths_exact _ _ _ Hstd Hc) in Hk. injection Hk as <-.
-    unfold Exclude.lsp_ignore_uri. rewrite Hrego. cbn [negb orb].
-    assert (Hp : uri_to_path u = rootp ++ [SLASH] ++ r) by (unfold uri_to_path, u; apply trim_prefix_app).
-    assert (Hr : uri_to_path root_uri = rootp) by (unfold uri_to_path, root_uri; apply trim_prefix_app).
-    rewrite Hp, Hr.
-    assert (Hstd1 : is_stdin (@cons str (rootp ++ [SLASH] ++ r) (@nil str)) = false).
-    { unfold is_stdin. destruct (str_eqb_spec (rootp ++ [SLASH] ++ r) [45]) as [E|_]; [|reflexivity].
-      destruct rootp as [|c [|c' rp]]; [contradiction|discriminate E|discriminate E]. }
-    pose proof (filter_ignored_paths_exact (@cons str (rootp ++ [SLASH] ++ r) (@nil str)) ignore rootp Hstd1 Hc) as E.
-    cbn [filter] in E. rewrite <- Hrel in E.
-    destruct (matches_any ignore (go_rel u root_uri)) eqn:Em; cbn [negb] in E.
-    - rewrite E.
-      split; [intros _ H; apply filter_In in H; destruct H as [_ H]; rewrite Em in H; discriminate | reflexivity].
-    - rewrite E.
-      split; [discriminate | intros H; exfalso; apply H; apply filter_In; split; [exact Hin|rewrite Em; reflexivity]].
+    induction uris as [|v us IH]; intros kept Hk.
+    - cbn in Hk. injection Hk as <-. split; [reflexivity|intros u []].
+    - cbn [Exclude.lsp_filtered_modules] in Hk. fold (lsp_one cl root_uri ignore v) in Hk.
+      cbn [filter]. unfold lsp_one_kept at 1.
+      destruct (lsp_one cl root_uri ignore v) as [[|x l]|] eqn:Ev; [| |discriminate Hk].
+      + destruct (IH _ Hk) as [E Hn]. split; [exact E|].
+        intros u [<-|Hin]; [rewrite Ev; discriminate|apply Hn; exact Hin].
+      + destruct (Exclude.lsp_filtered_modules glob_ok glob_match cl root_uri ignore us) as [k'|] eqn:Ek; [|discriminate Hk].
+        cbn in Hk. injection Hk as <-. destruct (IH _ eq_refl) as [E Hn]. split; [rewrite E; reflexivity|].
+        intros u [<-|Hin]; [rewrite Ev; discriminate|apply Hn; exact Hin].
+  Qed.
+
+  (* the two call sites agree on every cached .rego URI whatever it looks like (no domain hypothesis: an
+     uncompilable pattern makes getFilteredModules fail as a whole) *)
+  Lemma lsp_call_sites_agree_any cl root_uri u ignore uris kept :
+    has_suffix u dot_rego = true ->
+    lsp_filtered_modules cl root_uri ignore uris = Some kept -> In u uris ->
+    (lsp_ignore_uri cl root_uri ignore u = true <-> ~ In u kept).
+  Proof.
+    intros Hrego Hk Hin. destruct (lsp_modules_filter _ _ _ _ _ Hk) as [-> Hn].
+    specialize (Hn u Hin). unfold Exclude.lsp_ignore_uri. rewrite Hrego. cbn [negb orb].
+    fold (lsp_one cl root_uri ignore u). rewrite filter_In. unfold lsp_one_kept.
+    destruct (lsp_one cl root_uri ignore u) as [[|x l]|]; [| |contradiction].
+    - split; [intros _ [_ H]; discriminate H|reflexivity].
+    - split; [discriminate|intros H; exfalso; apply H; split; [exact Hin|reflexivity]].
+  Qed.
+
+  Lemma single_not_stdin rootp r : rootp <> [] -> is_stdin (@cons str (rootp ++ [SLASH] ++ r) (@nil str)) = false.
+  Proof.
+    intros Hne. unfold is_stdin. destruct (str_eqb_spec (rootp ++ [SLASH] ++ r) [45]) as [E|_]; [|reflexivity].
+    destruct rootp as [|c [|c' rp]]; [contradiction|discriminate E|discriminate E].
+  Qed.
+
+  (* a URI whose DECODED path lies below the decoded workspace root: the matcher is asked about the decoded
+     root-relative path r, whatever the URI's spelling (escapes, upper/lower case hex, drive letter form) *)
+  Lemma lsp_one_decoded cl root_uri u rootp r ignore :
+    uri_to_path cl root_uri = rootp -> uri_to_path cl u = rootp ++ [SLASH] ++ r ->
+    rootp <> [] -> has_suffix rootp [SLASH] = false -> all_compile ignore ->
+    lsp_one cl root_uri ignore u = Some (if matches_any ignore r then [] else [rootp ++ [SLASH] ++ r]).
+  Proof.
+    intros Hr Hu Hne Hs Hc. unfold lsp_one. rewrite Hr, Hu.
+    rewrite (filter_ignored_paths_exact _ _ _ (single_not_stdin rootp r Hne) Hc). cbn [filter].
+    destruct (go_rel_below_dir rootp r) as [E|E]; [|congruence]. rewrite E.
+    destruct (matches_any ignore r); reflexivity.
+  Qed.
+
+  Lemma lsp_ignore_uri_decoded cl root_uri u rootp r ignore :
+    uri_to_path cl root_uri = rootp -> uri_to_path cl u = rootp ++ [SLASH] ++ r ->
+    rootp <> [] -> has_suffix rootp [SLASH] = false -> has_suffix u dot_rego = true -> all_compile ignore ->
+    lsp_ignore_uri cl root_uri ignore u = matches_any ignore r.
+  Proof.
+    intros Hr Hu Hne Hs Hrego Hc. unfold Exclude.lsp_ignore_uri. rewrite Hrego. cbn [negb orb].
+    fold (lsp_one cl root_uri ignore u). rewrite (lsp_one_decoded _ _ _ _ _ _ Hr Hu Hne Hs Hc).
+    destruct (matches_any ignore r); reflexivity.
+  Qed.
+
+  Lemma lsp_call_sites_agree cl root_uri u rootp r ignore uris kept :
+    uri_to_path cl root_uri = rootp -> uri_to_path cl u = rootp ++ [SLASH] ++ r ->
+    rootp <> [] -> has_suffix rootp [SLASH] = false ->
+    has_suffix u dot_rego = true -> all_compile ignore ->
+    lsp_filtered_modules cl root_uri ignore uris = Some kept -> In u uris ->
+    lsp_ignore_uri cl root_uri ignore u = matches_any ignore r /\
+    (In u kept <-> matches_any ignore r = false).
+  Proof.
+    intros Hr Hu Hne Hs Hrego Hc Hk Hin.
+    pose proof (lsp_ignore_uri_decoded _ _ _ _ _ _ Hr Hu Hne Hs Hrego Hc) as E. split; [exact E|].
+    pose proof (lsp_call_sites_agree_any _ _ _ _ _ _ Hrego Hk Hin) as A. rewrite E in A.
+    destruct (matches_any ignore r) eqn:Em.
+    - split; [intros H; exfalso; apply (proj1 A eq_refl); exact H|discriminate].
+    - split; [reflexivity|intros _].
+      destruct (lsp_modules_filter _ _ _ _ _ Hk) as [-> _]. apply filter_In. split; [exact Hin|].
+      unfold lsp_one_kept. rewrite (lsp_one_decoded _ _ _ _ _ _ Hr Hu Hne Hs Hc), Em. reflexivity.
   Qed.
 End Oracle.
+
+(* ------------------------------------------------------------------ URIs: uri.ToPath undoes uri.FromPath *)
+
+Lemma hexval_hexdigit d : d < 16 -> hexval (hexdigit d) = Some d.
+Proof.
+  intros H. unfold hexdigit, hexval.
+  destruct (N.ltb_spec d 10) as [L|L].
+  - assert (E : (48 <=? 48 + d) && (48 + d <=? 57) = true)
+      by (apply andb_true_iff; split; apply N.leb_le; lia).
+    rewrite E. f_equal. lia.
+  - assert (E1 : (48 <=? 55 + d) && (55 + d <=? 57) = false)
+      by (apply andb_false_iff; right; apply N.leb_gt; lia).
+    assert (E2 : (65 <=? 55 + d) && (55 + d <=? 70) = true)
+      by (apply andb_true_iff; split; apply N.leb_le; lia).
+    rewrite E1, E2. f_equal. lia.
+Qed.
+
+Lemma unreserved_not_special c :
+  unreserved c || (c =? SLASH) = true -> (c =? PERCENT) = false /\ (c =? PLUS) = false.
+Proof.
+  intros H. split.
+  - destruct (N.eqb_spec c PERCENT) as [->|_]; [vm_compute in H; discriminate H|reflexivity].
+  - destruct (N.eqb_spec c PLUS) as [->|_]; [vm_compute in H; discriminate H|reflexivity].
+Qed.
+
+(* every byte string survives FromPath's escaping followed by ToPath's unescaping *)
+Lemma unescape_escape p : Forall (fun c => c < 256) p -> query_unescape (uri_escape p) = Some p.
+Proof.
+  induction 1 as [|c p Hc _ IH]; [reflexivity|].
+  cbn [uri_escape]. destruct (unreserved c || (c =? SLASH)) eqn:Eu.
+  - destruct (unreserved_not_special c Eu) as [E1 E2].
+    cbn [query_unescape]. rewrite E1, E2, IH. reflexivity.
+  - cbn [query_unescape]. rewrite N.eqb_refl.
+    assert (Hd : c / 16 < 16) by (apply N.div_lt_upper_bound; [discriminate|exact Hc]).
+    assert (Hm : c mod 16 < 16) by (apply N.mod_lt; discriminate).
+    rewrite (hexval_hexdigit _ Hd), (hexval_hexdigit _ Hm), IH. cbn [option_map].
+    rewrite <- (N.div_mod' c 16). reflexivity.
+Qed.
+
+Lemma uri_roundtrip p :
+  Forall (fun c => c < 256) p -> uri_to_path ClientGeneric (file_scheme ++ uri_escape p) = p.
+Proof.
+  intros H. unfold uri_to_path. rewrite has_prefix_app, trim_prefix_app, (unescape_escape p H). reflexivity.
+Qed.
+
+(* ------------------------------------------------------------------ pinned code: getFilteredModules matched the
+   percent-encoded text (repaired in round 3): a module that ignoreURI reports as ignored was kept *)
+Lemma lsp_modules_pinned_refuted :
+  exists root_uri u p,
+    let lit := fun e f : str => str_eqb e f in
+    lsp_ignore_uri (fun _ => true) lit ClientGeneric root_uri [p] u = true /\
+    lsp_filtered_modules_pinned (fun _ => true) lit root_uri [p] [u] = Some [u] /\
+    lsp_filtered_modules (fun _ => true) lit ClientGeneric root_uri [p] [u] = Some [].
+Proof.
+  (* root file:///w, module file:///w/a%20b.rego, pattern "a b.rego" *)
+  exists (file_scheme ++ [SLASH; 119]), (file_scheme ++ [SLASH; 119; SLASH; 97; 37; 50; 48; 98] ++ dot_rego),
+         ([97; 32; 98] ++ dot_rego).
+  vm_compute. repeat split; reflexivity.
+Qed.
+
+(* ------------------------------------------------------------------ OPEN finding (round 3): the language server
+   lints with the URIs as file names and the root URI as prefix; both relativising functions trim the prefix from
+   the percent-encoded text, so a rule's own ignore list is matched against the ENCODED root-relative name *)
+Definition lsp_lint_in (root_uri : str) (uris rule_ignore : list str) : lint_in :=
+  {| li_files := uris; li_prefix := root_uri; li_cli := []; li_cfg := None; li_rule_ignore := fun _ => rule_ignore |}.
+
+Lemma lsp_rule_ignore_decoded_refuted :
+  exists root_uri u r p,
+    let lit := fun e f : str => str_eqb e f in
+    uri_to_path ClientGeneric u = uri_to_path ClientGeneric root_uri ++ [SLASH] ++ r /\
+    matches (fun _ => true) lit p r = true /\
+    rule_runs_on (fun _ => true) lit (lsp_lint_in root_uri [u] [p]) KBuiltin u = true.
+Proof.
+  exists (file_scheme ++ [SLASH; 119]), (file_scheme ++ [SLASH; 119; SLASH; 97; 37; 50; 48; 98] ++ dot_rego),
+         ([97; 32; 98] ++ dot_rego), ([97; 32; 98] ++ dot_rego).
+  vm_compute. repeat split; reflexivity.
+Qed.
+
+(* what does hold: a URI that spells the root-relative path r as it is (no character of r needs escaping) is
+   decided on r, for every kind of rule *)
+Lemma lsp_rule_ignore_plain_partial ok m root_uri r uris rule_ignore k :
+  has_suffix root_uri [SLASH] = false ->
+  rule_runs_on ok m (lsp_lint_in root_uri uris rule_ignore) k (root_uri ++ [SLASH] ++ r) =
+  negb (rego_excluded_file ok m [] None rule_ignore r).
+Proof.
+  intros Hs. unfold rule_runs_on, lsp_lint_in. cbn [li_cli li_cfg li_rule_ignore li_prefix].
+  rewrite relativise_agree_kind.
+  destruct (go_rel_below_dir root_uri r) as [E|E]; [|congruence]. rewrite E. reflexivity.
+Qed.
 
 (* ------------------------------------------------------------------ how the file is spelled (CLI)
    The matchers see the name as given. For a file with root-relative path r under the root d: *)
